@@ -113,7 +113,7 @@ def subscript_stores(fi: FuncInfo) -> List[Tuple[ast.stmt, ast.Subscript, Option
 # ---- guards -----------------------------------------------------------------
 
 def conds(prog: Program, fi: FuncInfo, node: ast.AST) -> List[Cond]:
-    return [c for c in prog.conditions(fi, node) if c.kind not in ("for", "try", "with", "handler")]
+    return [c.normalised() for c in prog.conditions(fi, node) if c.kind not in ("for", "try", "with", "handler")]
 
 
 def may_conds(prog: Program, fi: FuncInfo, node: ast.AST) -> List[Cond]:
@@ -121,7 +121,7 @@ def may_conds(prog: Program, fi: FuncInfo, node: ast.AST) -> List[Cond]:
     dependence), whether or not it holds on all paths: empty means the node runs
     whenever the function runs to completion.  Use this for 'unconditional' rules;
     use conds() for facts that must hold when the node executes."""
-    return prog.conditions(fi, node, universal=False)
+    return [c.normalised() for c in prog.conditions(fi, node, universal=False)]
 
 
 def is_early_exit_guard(prog: Program, fi: FuncInfo, c: Cond) -> bool:
@@ -129,8 +129,8 @@ def is_early_exit_guard(prog: Program, fi: FuncInfo, c: Cond) -> bool:
     the guard does NOT fire): such a condition restricts when the function / loop body
     does anything at all, not what it does."""
     for n in A.body_nodes(fi.node):
-        if isinstance(n, ast.If) and n.test is c.test and not n.orelse and n.body and isinstance(n.body[-1], (ast.Return, ast.Raise, ast.Continue)):
-            return c.polarity is False
+        if isinstance(n, ast.If) and n.test is (c.raw if c.raw is not None else c.test) and not n.orelse and n.body and isinstance(n.body[-1], (ast.Return, ast.Raise, ast.Continue)):
+            return (c.raw_polarity if c.raw is not None else c.polarity) is False
     if c.kind == "assert":
         return True
     return False
